@@ -260,6 +260,8 @@ def families(tier):
         nm = len(MEMBERS[cls])
         pre = ["cls == %d" % cls, "0 <= m < %d" % nm, "0 <= k <= 3", "0 <= flag <= 1", "0 <= g <= 3", "-5 <= setv <= 999", "n <= 4", "0 <= lk <= 1"]
         parts = []
+        spawners = [j for j, (n_, _) in enumerate(MEMBERS[cls]) if n_ in ("apply", "map", "starmap", "doublestarmap", "start")]
+        pre = pre + ["lk == 0 or " + " or ".join("m == %d" % j for j in spawners)]
         for j, (n_, _) in enumerate(MEMBERS[cls]):
             if n_ == "cancel":
                 for q in (["k <= 1"], ["k == 2", "i1 <= 1"], ["k == 2", "i1 >= 2"], ["k == 3", "i1 <= 0"], ["k == 3", "i1 == 1"],
@@ -272,7 +274,7 @@ def families(tier):
                            twin_args=[cls, [i for i, (n_, _) in enumerate(MEMBERS[cls]) if n_ == "get_group_ids"][0], 1, 0, 0, 0, 0, 0, 0, 0, 0]))
     fams.append(Family(name="conv", fn="tpl_conv", params=["x1", "a1", "x2", "a2", "x3", "a3", "x4", "a4"],
                        pre=["0 <= x1 <= 3", "0 <= a1 <= 4", "0 <= x2 <= 3", "0 <= a2 <= 4", "0 <= x3 <= 3", "0 <= a3 <= 4",
-                            "0 <= x4 <= 3", "0 <= a4 <= 4"] + ([] if tier == "thorough" else ["x4 == 2", "a4 == 0"]),
+                            "0 <= x4 <= 3", "0 <= a4 <= 4"] + ([] if tier == "thorough" else ["x4 == 2", "a4 == 0", "x3 <= 1", "a3 <= 3"]),
                        parts=parts_product(x1=range(4), x2=range(4)), twin_pre=["x1 == 0", "x2 == 1", "x3 == 0"],
                        twin_args=[0, 0, 1, 0, 0, 0, 2, 0]))
     return fams
